@@ -12,7 +12,7 @@ DIGESTS = {
     "node-deletion": {"fns": ["database::node::NodeDeletionEntry::sign", "database::node::NodeDeletionEntry::verify"], "adt": "database::node::NodeDeletionEntry", "sig": "signature"},
     "edge-deletion": {"fns": ["database::edge::EdgeDeletionEntry::sign", "database::edge::EdgeDeletionEntry::verify"], "adt": "database::edge::EdgeDeletionEntry", "sig": "signature"},
 }
-CANON = {"room": "room_id", "_entity": "entity", "node._entity": "entity"}
+CANON = {"_entity": "entity"}
 
 
 def skipped_fields(P, adt):
@@ -40,7 +40,37 @@ def canon(name):
     return CANON.get(name, name).lstrip("_")
 
 
-def segments(b, adt=None):
+def param_field_map(P, b, adt_path):
+    """for a digest function that takes the row's parts as parameters (`sign(room, node, date, key, ..)`): which struct
+    field each parameter (or field of a parameter) ends up in, read from the caller that signs and then builds the struct
+    literal (`build`): sign's i-th argument and the literal's operand are the same variable / the same field of it."""
+    out = {}
+    pnames = {l: n for l, n, lty, leaf in b.named_locals() if leaf[0] == "param"}
+    for cb, bi, t in P.call_sites(re.escape(mir.normalize(b.id)) + "$"):
+        lit = None
+        for bj in cb.live_blocks():
+            for sj, st in enumerate(cb.blocks[bj]["s"]):
+                rv = st["rv"]
+                if rv["r"] == "aggr" and rv.get("adt") == adt_path:
+                    lit = cb.def_term(bj, sj, rv, 0)
+        if lit is None:
+            continue
+        args = [mir.strip(a) for a in cb.call_args(bi)]
+        for fname, op in zip(lit[5], lit[4]):
+            o = mir.strip(op)
+            chain = []
+            while o[0] == "field":
+                chain.append(o[2])
+                o = mir.strip(o[1])
+            if o[0] not in ("var", "param"):
+                continue
+            for i, a in enumerate(args):
+                if a[:3] == o[:3] and (i + 1) in pnames:
+                    out[".".join([pnames[i + 1]] + list(reversed(chain)))] = fname
+    return out
+
+
+def segments(b, adt=None, pmap=None):
     """ordered digest input: [(canonical field, kind F/V/K, optional?, line, type, path)]; the width class comes
     from the type of the struct field the operand reads (type facts)"""
     ftypes = {}
@@ -57,6 +87,8 @@ def segments(b, adt=None):
             dv = mir.discr_variants(term, vals)
             if dv and dv[1] == ["Some"]:
                 opt = True
+        if pmap and name in pmap:
+            name = pmap[name]
         cn = canon(name)
         ty = ftypes.get(cn, "")
         if le is not None or re.search(r"^(std::option::Option<)?\[u8; ?(\d+|UID_SIZE)\]>?$", ty) or ty in ("i64", "u64", "i32", "u32"):
@@ -99,7 +131,7 @@ def run(P, C, tier):
                 C.anchor_missing("R1", fn, e)
                 continue
             C.saw(b)
-            seg = segments(b, adt)
+            seg = segments(b, adt, param_field_map(P, b, spec["adt"]) if "self" not in [n for l, n, lty, lf in b.named_locals() if lf[0] == "param"] else None)
             per_fn[fn] = seg
             fed = {s[0] for s in seg}
             role = fn.split("::")[-1]
@@ -118,7 +150,9 @@ def run(P, C, tier):
             for bi, t in sorted(b.calls_to(r"blake3::Hasher::update$"), key=lambda x: b.line_of(x[0])):
                 a = b.call_args(bi, expand_vars=True)[1]
                 stray = sorted({mir.short(x[1]) for x in mir.subterms(a) if x[0] == "call" and not re.search(INJECTIVE, x[1])})
-                name = canon(field_path(mir.has_call(a, r"::to_le_bytes$")[2][0]) if mir.has_call(a, r"::to_le_bytes$") is not None else field_path(a))
+                raw = field_path(mir.has_call(a, r"::to_le_bytes$")[2][0]) if mir.has_call(a, r"::to_le_bytes$") is not None else field_path(a)
+                pm = param_field_map(P, b, spec["adt"]) if "self" not in [n for l, n, lty, lf in b.named_locals() if lf[0] == "param"] else {}
+                name = canon(pm.get(raw, raw))
                 if name.startswith("<"):
                     # the root is a call that is not transparent: name the field by the first field access inside
                     flds = [x[2] for x in mir.subterms(a) if x[0] == "field" and not x[2].isdigit()]
